@@ -406,6 +406,13 @@ def mutants(decls, rng):
                 nd.lines.insert(vl, "  k_noinit : INT;")
                 nd.lines.insert(vl, "VAR CONSTANT")
                 out.append(("P0016", "CONSTANT variable without initial value in %s" % d.name, with_decl(i, nd)))
+                if d.kind == "program":
+                    # the same for a variable at a given address (located variables are declared in programs)
+                    nd = d.copy()
+                    nd.lines.insert(vl, "END_VAR")
+                    nd.lines.insert(vl, "  k_noinit AT %%MW%d : INT;" % rng.randrange(1, 9))
+                    nd.lines.insert(vl, "VAR CONSTANT")
+                    out.append(("P0016", "CONSTANT located variable without initial value in %s" % d.name, with_decl(i, nd)))
             if "instance" in d.info:
                 inst, callee = d.info["instance"]
                 vl = next(j for j, l in enumerate(d.lines) if l == "VAR")
@@ -434,7 +441,7 @@ def mutants(decls, rng):
                 ev, en = d.info["enum_var"]
                 j = next(k for k, l in enumerate(d.lines) if l.startswith("  %s : %s :=" % (ev, en)))
                 nd = d.copy()
-                nd.lines[j] = "  %s : %s := NOT_A_VALUE;" % (ev, en)
+                nd.lines[j] = "  %s : %s := %sNOT_A_VALUE;" % (ev, en, (en + "#") if rng.random() < 0.5 else "")
                 out.append(("P0014", "initial value not in enumeration %s" % en, with_decl(i, nd)))
             vl = next(j for j, l in enumerate(d.lines) if l in ("VAR", "VAR_INPUT"))
             nd = d.copy()
